@@ -767,8 +767,9 @@ example :
       = some none ∧
     ((exec s0 1 3 [1, 2] { advOk with valAct := .shutdown }).sys.locks 1).map (·.owner) = some none := by decide
 
-/-- the hypotheses of the two theorems about callbacks are satisfiable: a G1 checkpoint condition that kills
-    another operation spares op 1; callbacks that only end op 1 itself are `SelfOnly` -/
+/-- the hypothesis of the theorems about untouched resources is satisfiable: callbacks that only end op 1 itself are
+    `SelfOnly` (and a G1 checkpoint condition that kills another operation `spares` op 1 — the hypothesis the
+    work-holds-everything theorem needed before the repair of the finding, kept for the record) -/
 example : (WorkAct.kill 7).spares 1 ∧ WorkAct.none.spares 1 ∧
     ({ advOk with cpAct := fun i => if i = 0 then .kill 1 else .none, valAct := .kill 1 } : Adv).SelfOnly 1 :=
   ⟨Or.inr ⟨7, rfl, by decide⟩, Or.inl rfl,
